@@ -164,7 +164,20 @@ pub fn cost_ref<S: Sc>(ce: bool, out: &T<S>, target: &T<S>) -> Option<T<S>> {
 
 /// loss and gradient with respect to every parameter element (forward mode, one run per element)
 pub fn loss_and_grads(spec: &NetSpec, params: &[T<f64>], input: &T<f64>, target: &T<f64>) -> Option<(f64, Vec<Vec<f64>>, Vec<Vec<f64>>, bool)> {
-    let (out, kink) = forward_ref::<f64>(spec, params, input)?;
+    loss_and_grads_n(spec, params, input, target, 1)
+}
+/// the same for the net applied `apps` times to its own output (tied weights)
+pub fn forward_ref_n<S: Sc>(spec: &NetSpec, params: &[T<S>], input: &T<S>, apps: usize) -> Option<(T<S>, bool)> {
+    let (mut x, mut kink) = forward_ref(spec, params, input)?;
+    for _ in 1..apps {
+        let (y, k) = forward_ref(spec, params, &x)?;
+        x = y;
+        kink |= k;
+    }
+    Some((x, kink))
+}
+pub fn loss_and_grads_n(spec: &NetSpec, params: &[T<f64>], input: &T<f64>, target: &T<f64>, apps: usize) -> Option<(f64, Vec<Vec<f64>>, Vec<Vec<f64>>, bool)> {
+    let (out, kink) = forward_ref_n::<f64>(spec, params, input, apps)?;
     let loss = cost_ref(spec.ce, &out, target)?.sum_all();
     let mut grads = vec![];
     let mut scales = vec![];
@@ -185,7 +198,7 @@ pub fn loss_and_grads(spec: &NetSpec, params: &[T<f64>], input: &T<f64>, target:
                     t
                 })
                 .collect();
-            let (o, _) = forward_ref(spec, &dp, &T::from_f64(&input.dims, &input.v))?;
+            let (o, _) = forward_ref_n(spec, &dp, &T::from_f64(&input.dims, &input.v), apps)?;
             let l = cost_ref(spec.ce, &o, &T::from_f64(&target.dims, &target.v))?;
             g[j] = l.v.iter().map(|x| x.d.v).sum();
             sc[j] = l.v.iter().map(|x| x.d.s + x.d.v.abs()).sum();
@@ -525,6 +538,10 @@ pub struct Iteration {
     /// `backward(target)` once more AFTER the update, on the forward pass of this iteration (the graph of the replaced
     /// parameters): returns this iteration's loss again and leaves the new parameters alone
     pub late_backward: bool,
+    /// the model object is dropped after this iteration's backward and a new one (same layers) makes the update call
+    pub rebuild_before_update: bool,
+    /// the model is applied to its own output (`forward(forward(x))`, tied weights) before the cost is taken
+    pub twice: bool,
     /// before this iteration the model object is dropped, the layers are edited through Layer::parameters() and a new
     /// Model is built over the same layers
     pub rebuild: Option<Rebuild>,
@@ -540,7 +557,7 @@ pub struct Rebuild {
 }
 impl Iteration {
     pub fn plain(input: T<f64>, target: T<f64>, double_backward: bool) -> Iteration {
-        Iteration { input, target, double_backward, abandoned_forward: None, late_forward: None, late_backward: false, rebuild: None }
+        Iteration { input, target, double_backward, abandoned_forward: None, late_forward: None, late_backward: false, rebuild_before_update: false, twice: false, rebuild: None }
     }
 }
 
@@ -618,6 +635,7 @@ pub fn train_spied(spec: &NetSpec, params: &[T<f64>], iterations: &[Iteration], 
                     keep(&kept, &target, "training-target");
                 }
                 let out = model.forward(input);
+                let out = if it.twice { model.forward(out) } else { out };
                 outputs.push(Obs::of(&out));
                 output_tracked.push(is_tracked(&out));
                 if keep_handles {
@@ -632,6 +650,18 @@ pub fn train_spied(spec: &NetSpec, params: &[T<f64>], iterations: &[Iteration], 
                     let n0 = events.borrow().len();
                     let _ = model.forward(arr_t(x));
                     events.borrow_mut().truncate(n0);
+                }
+                if it.rebuild_before_update {
+                    // (say, to change the learning rate after looking at the loss): the gradients live on the parameters,
+                    // not in the model object
+                    drop(model);
+                    {
+                        let refs2: Vec<&mut dyn Layer> = spies.iter_mut().map(|s| s as &mut dyn Layer).collect();
+                        let mut m2 = Model::new(refs2, &opt, &costf);
+                        m2.update();
+                    }
+                    i += 1;
+                    break;
                 }
                 model.update();
                 if it.late_backward && it.late_forward.is_none() {
